@@ -24,6 +24,7 @@ RULE = (
     '(all for F=2, 6 fixed patterns for F=3); all-axes histories (F=2, 5 values on all 6 coordinates); two-atom '
     'tracks; for F<=2 six further values 1e-9..1e-6 from the faces; input array unchanged; query-then-extend history; evaluation = one (history, shift) through the real Trajectory; distinct = distinct observed '
     '(positions, displacements) byte patterns'
+    '; every history also handed over through the displacement-mode constructor (per-step displacements + base positions): reported displacements before / after reading positions'
 )
 LEVEL_TEXT = (
     'Bounded-exhaustive over the product of the face-value alphabet, frame counts <= 3, axes, lattices '
